@@ -32,6 +32,18 @@ NEEDS = {
  "C13-b3": "strict=False, two opposite-sign constraints on one axis with equal size, then one of them edited to another size",
  "C14-a3": "reducer used, then clear(keepshape=True): peek()/dump() not None and the next fold starts from a zero state (EMA, Event(initial='zero'))",
  "C14-b3": "a dt assignment after which delay/duration is not a whole multiple of the step with fractional part in (0, 0.5] (round instead of ceil)",
+ "C15-a3": "register_cell, trainer.eval(), trainer.train() (monitors re-registered), then drop the last reference to the trainer and collect, then a layer step",
+ "C15-b3": "one trainer with two cells sharing pooled monitors: trainer.monitors lists the shared monitors once per cell (unique() filters nothing)",
+ "C16-a3": "hook(ignore_mode=True) without force on a hook that is not registered (never, or registered and deregistered)",
+ "C16-b3": "Normalization with a complex scale (documented float | complex): the cast back to the input dtype drops the imaginary part",
+ "C17-a3": "Biclique (Layer.clear) with unequal numbers of connections and neuron groups whose uncleared tail holds state (exponential / delayed synapse)",
+ "C17-b3": "RecurrentSerial with library neurons and refrac_t > dt: neuron.spike reads as spiking throughout the refractory period",
+ "C18-a3": "DelayAdjustedSTDPD with delays changed between steps through a setter / connection.update() after registration (stale cached view)",
+ "C18-b3": "LinearLateral under any delay-adjusted rule (presyn_receptive delegated to the postsynaptic reshape; square shapes broadcast silently)",
+ "C19-a3": "HomogeneousPoissonEncoder online when the consumer keeps the yielded slices (one buffer re-used and overwritten)",
+ "C19-b3": "PoissonIntervalEncoder offline with exact-zero intensities (collision-avoidance increment lost its mask)",
+ "C20-a3": "Normal.params_mv with the variance passed as a tensor the caller re-reads (in-place sqrt_)",
+ "C20-b3": "density / cdf on an integer-dtype support (torch.arange) with tensor-valued non-integral parameters (parameters cast to the support's dtype)",
 }
 for k, v in NEEDS.items():
     mp = f"/verif/seeded/{k}/meta.json"
